@@ -138,6 +138,40 @@ def payoff_case(fname, call, via):
     return build
 
 
+def payoff_case_leading_dims(fname, call):
+    """the documented input shape is (*, T): with two leading dimensions (B, N, T) the payoff has one entry per leading index
+    and is taken along the LAST axis (time)"""
+    def build():
+        import torch
+        import pfhedge.nn.functional as F
+        from pfv.torchlib.tensor import Tensor
+        Bd = tm.var('B', 'I')
+        X3 = lambda b, n, k: tm.sel('X3', b, n, k)
+        LAST3 = tm.sub(T, tm.IONE)
+
+        def run(c):
+            return getattr(F, fname)(Tensor.input('X3', (Bd, N, T), torch.float64), call=call, strike=SReal(K))
+
+        def spec(b, n, c):
+            k = c.fresh('k', 'I')
+            mx = tm.big('bmax', k, tm.IZERO, T, X3(b, n, k))
+            mn = tm.big('bmin', k, tm.IZERO, T, X3(b, n, k))
+            return {('european_payoff', True): relu(tm.sub(X3(b, n, LAST3), K)), ('european_payoff', False): relu(tm.sub(K, X3(b, n, LAST3))),
+                    ('lookback_payoff', True): relu(tm.sub(mx, K)), ('lookback_payoff', False): relu(tm.sub(K, mn)),
+                    ('european_binary_payoff', True): ind(tm.ge(X3(b, n, LAST3), K)), ('european_binary_payoff', False): ind(tm.le(X3(b, n, LAST3), K)),
+                    ('american_binary_payoff', True): ind(tm.ge(mx, K)), ('american_binary_payoff', False): ind(tm.le(mn, K))}[(fname, call)]
+
+        def ens(res, p):
+            b, n = p.ctx.fresh('b', 'I'), p.ctx.fresh('n', 'I')
+            return [('payoff[b, n]', [tm.le(tm.IZERO, b), tm.lt(b, Bd), tm.le(tm.IZERO, n), tm.lt(n, N)], res.at((b, n)), spec(b, n, p.ctx))]
+        return fc.Case(run, hyps=DIMS + [tm.ge(Bd, tm.IONE)], ensures=ens, shape=lambda res: (Bd, N), dtype=torch.float64, scalars=['K'], tensors={'X3': ((Bd, N, T), 'R')},
+                       real_snippet='import pfhedge.nn.functional as F\nX=T(W["X3"]); K=W.get("K",1.0); call=%r\ngot=F.%s(X, call=call, strike=K)\n'
+                                    'def row(r):\n    fn=%r\n    if fn=="european_payoff": return max(r[-1]-K,0) if call else max(K-r[-1],0)\n    if fn=="lookback_payoff": return max(max(r)-K,0) if call else max(K-min(r),0)\n'
+                                    '    if fn=="european_binary_payoff": return float(r[-1]>=K) if call else float(r[-1]<=K)\n    return float(max(r)>=K) if call else float(min(r)<=K)\n'
+                                    'result={"got": got, "ref": [[row(r) for r in blk] for blk in W["X3"]]}' % (call, fname, fname))
+    return build
+
+
 def forward_start_obs():
     obs = []
     s_, DT, START = tm.var('s', 'I'), tm.var('dt'), tm.var('start')
@@ -373,6 +407,8 @@ def build(tier, seed):
                                   '%s(%s) == contractual definition for every path, all N, T >= 1 (ties with the strike included)' % (fname, tag)))
         obs.append(fc.contract_ob('C12/%s.payoff/post[%s]' % (CLS[fname], tag), 'pfhedge.instruments.derivative.%s.payoff_fn' % CLS[fname], [PROP], payoff_case(fname, call, 'payoff'),
                                   '%s(call=%s, strike=K).payoff() == the same definition on the underlier\'s spot' % (CLS[fname], call)))
+        obs.append(fc.contract_ob('C12/%s/post[%s,leading dimensions (B,N,T)]' % (fname, tag), F_ + fname, [PROP], payoff_case_leading_dims(fname, call),
+                                  '%s(%s) on a (B, N, T) input: one entry per (b, n), taken along the time axis' % (fname, tag)))
         if call:
             obs.append(fc.contract_ob('C12/%s.payoff/post[%s,after an evaluation on another underlier]' % (CLS[fname], tag), 'pfhedge.instruments.derivative.%s.payoff_fn' % CLS[fname], [PROP], payoff_case(fname, call, 'history'),
                                       '%s.payoff() follows the CURRENT underlier and its CURRENT paths: evaluated on another stock first, then re-targeted (register_underlier under the same name) and re-simulated' % CLS[fname]))
